@@ -10,6 +10,20 @@ pub use secp256k1::{Message, PublicKey, SecretKey, SECP256K1};
 
 pub const PARALLEL_HASH_BYTE_THRESHOLD: usize = 128_000;
 
+/// Verification hooks (guard: `--cfg saito_verif`, off in every normal build).
+/// Under the guard the cryptographic primitives are replaced by oracles registered by the
+/// verification harness; with the guard off this module does not exist and the functions below
+/// are exactly the original ones.
+#[cfg(saito_verif)]
+pub mod verif_hooks {
+    use crate::core::defs::{SaitoHash, SaitoPrivateKey, SaitoPublicKey, SaitoSignature};
+    pub static mut HASH: Option<fn(&[u8]) -> SaitoHash> = None;
+    pub static mut SIGN: Option<fn(&[u8], &SaitoPrivateKey) -> SaitoSignature> = None;
+    pub static mut VERIFY: Option<fn(&SaitoHash, &SaitoSignature, &SaitoPublicKey) -> bool> = None;
+    pub static mut RANDOM: Option<fn(u64) -> Vec<u8>> = None;
+    pub static mut VALID_KEY: Option<fn(&SaitoPublicKey) -> bool> = None;
+}
+
 // pub fn encrypt_with_password(msg: &[u8], password: &[u8]) -> Vec<u8> {
 //     let hash = hash(password);
 //     let mut key: [u8; 16] = [0; 16];
@@ -78,6 +92,10 @@ fn create_test_rng() -> rand::rngs::StdRng {
 }
 
 pub async fn generate_random_bytes(len: u64) -> Vec<u8> {
+    #[cfg(saito_verif)]
+    return (unsafe { verif_hooks::RANDOM }.expect("saito_verif: RANDOM oracle not registered"))(len);
+    #[cfg(not(saito_verif))]
+    {
     if len == 0 {
         let x: Vec<u8> = vec![];
         return x;
@@ -95,9 +113,14 @@ pub async fn generate_random_bytes(len: u64) -> Vec<u8> {
         let mut rng = TEST_RNG.lock().await;
         (0..len).map(|_| rng.gen::<u8>()).collect()
     }
+    }
 }
 
 pub fn hash(data: &[u8]) -> SaitoHash {
+    #[cfg(saito_verif)]
+    return (unsafe { verif_hooks::HASH }.expect("saito_verif: HASH oracle not registered"))(data);
+    #[cfg(not(saito_verif))]
+    {
     let mut hasher = Hasher::new();
     // Hashing in parallel can be faster if large enough
     // TODO: Blake3 has benchmarked 128 kb as the cutoff,
@@ -117,14 +140,20 @@ pub fn hash(data: &[u8]) -> SaitoHash {
     }
 
     hasher.finalize().into()
+    }
 }
 
 pub fn sign(message_bytes: &[u8], private_key: &SaitoPrivateKey) -> SaitoSignature {
+    #[cfg(saito_verif)]
+    return (unsafe { verif_hooks::SIGN }.expect("saito_verif: SIGN oracle not registered"))(message_bytes, private_key);
+    #[cfg(not(saito_verif))]
+    {
     let hash = hash(message_bytes);
     let msg = Message::from_slice(&hash).unwrap();
     let secret = SecretKey::from_slice(private_key).unwrap();
     let sig = SECP256K1.sign_ecdsa(&msg, &secret);
     sig.serialize_compact()
+    }
 }
 
 pub fn verify(msg: &[u8], sig: &SaitoSignature, public_key: &SaitoPublicKey) -> bool {
@@ -137,6 +166,10 @@ pub fn verify_signature(
     sig: &SaitoSignature,
     public_key: &SaitoPublicKey,
 ) -> bool {
+    #[cfg(saito_verif)]
+    return (unsafe { verif_hooks::VERIFY }.expect("saito_verif: VERIFY oracle not registered"))(hash, sig, public_key);
+    #[cfg(not(saito_verif))]
+    {
     let m = Message::from_slice(hash);
     let p = PublicKey::from_slice(public_key);
     let s = ecdsa::Signature::from_compact(sig);
@@ -147,11 +180,17 @@ pub fn verify_signature(
             .verify_ecdsa(&m.unwrap(), &s.unwrap(), &p.unwrap())
             .is_ok()
     }
+    }
 }
 
 pub fn is_valid_public_key(key: &SaitoPublicKey) -> bool {
+    #[cfg(saito_verif)]
+    return (unsafe { verif_hooks::VALID_KEY }.expect("saito_verif: VALID_KEY oracle not registered"))(key);
+    #[cfg(not(saito_verif))]
+    {
     let result = PublicKey::from_slice(key);
     result.is_ok()
+    }
 }
 
 #[cfg(test)]
